@@ -110,8 +110,8 @@ Qed.
 Lemma present_null f : present f LNull = Some RNone.
 Proof. unfold present. destruct (fdt' f); reflexivity. Qed.
 
-Theorem read_decode_list k v offs m elems cf nm nl :
-  reads_ok cf elems -> reads_ok (mkField nm (DList k cf) nl) (AList k v offs m elems).
+Theorem read_decode_list k k' v offs m elems cf nm nl :
+  reads_ok cf elems -> reads_ok (mkField nm (DList k' cf) nl) (AList k v offs m elems).
 Proof.
   intros IH lvs i lv H Hx. cbn [decode] in H.
   destruct (decode elems) as [es|] eqn:Ee; [|discriminate]. destruct (ranges es offs) as [rs|] eqn:Er; [|discriminate].
@@ -126,4 +126,475 @@ Proof.
   rewrite <- (decode_length _ _ Ee). rewrite range_z_in_bounds by lia.
   rewrite (mapM_read_present _ (present cf) es) by (try lia; intros j lv' Hj; apply (IH es j lv' Ee Hj)).
   cbn [present fdt']. destruct (all_some _); reflexivity.
+Qed.
+
+(* ---- fixed-size lists ---- *)
+Lemma chunks_nth {A} : forall count (l : list A) n cs i x, chunks l n count = Some cs -> nth_error cs i = Some x ->
+  (i + 1) * n <= length l /\ x = firstn n (skipn (i * n) l).
+Proof.
+  induction count as [|c IH]; intros l n cs i x H Hx; cbn [chunks] in H.
+  - inversion H; subst. destruct i; discriminate.
+  - destruct (Nat.leb_spec n (length l)) as [Hle|]; [|discriminate].
+    destruct (chunks (skipn n l) n c) as [r|] eqn:E; [|discriminate]. inversion H; subst.
+    destruct i as [|i]; cbn [nth_error] in Hx.
+    + inversion Hx; subst. split; [lia|reflexivity].
+    + destruct (IH _ _ _ _ _ E Hx) as [Hl ->]. rewrite skipn_length in Hl. split; [lia|].
+      rewrite skipn_skipn'. f_equal; f_equal; lia.
+Qed.
+
+Theorem read_decode_fixed_list len n v m elems cf nm nl :
+  reads_ok cf elems -> reads_ok (mkField nm (DFixedList n cf) nl) (AFixedList len n v m elems).
+Proof.
+  intros IH lvs i lv H Hx. cbn [decode] in H.
+  destruct (n <? 0)%Z eqn:Hn; [discriminate|]. apply Z.ltb_ge in Hn.
+  destruct (decode elems) as [es|] eqn:Ee; [|discriminate]. destruct (chunks es (Z.to_nat n) len) as [cs|] eqn:Ec; [|discriminate].
+  destruct (lvs_index _ _ _ _ _ _ H Hx) as [x [b0 [Ex [Hb0 ->]]]].
+  destruct (chunks_nth _ _ _ _ _ _ Ec Ex) as [Hl ->].
+  assert (Hi : i < len) by (rewrite <- (chunks_length _ _ _ _ Ec); apply nth_error_Some; congruence).
+  cbn [read]. destruct (Nat.leb_spec len i); [lia|]. rewrite Hb0. cbn [bind].
+  destruct b0; cbn [negb]; [|rewrite present_null; reflexivity].
+  rewrite <- (decode_length _ _ Ee). rewrite range_z_in_bounds by nia.
+  replace (Z.to_nat (Z.of_nat i * n)) with (i * Z.to_nat n) by nia.
+  replace (Z.to_nat ((Z.of_nat i + 1) * n - Z.of_nat i * n)) with (Z.to_nat n) by nia.
+  rewrite (mapM_read_present _ (present cf) es) by (try lia; intros j lv' Hj; apply (IH es j lv' Ee Hj)).
+  cbn [present fdt']. destruct (all_some _); reflexivity.
+Qed.
+
+(* ---- structs ---- *)
+Fixpoint decode_cols (fs : list (Meta * Arr)) : option (list (bytes * list LVal)) :=
+  match fs with
+  | [] => Some []
+  | (m, c) :: r => match decode c, decode_cols r with Some vs, Some rest => Some ((m_name m, vs) :: rest) | _, _ => None end
+  end.
+
+Lemma decode_struct n v fs :
+  decode (AStruct n v fs) =
+  match decode_cols fs with
+  | Some cols => match struct_rows n cols with Some rows => apply_validity v (map LStruct rows) | None => None end
+  | None => None
+  end.
+Proof.
+  cbn [decode].
+  match goal with |- match ?x with _ => _ end = match ?y with _ => _ end => assert (E : x = y); [|rewrite E; reflexivity] end.
+  induction fs as [|[m c] r IH]; [reflexivity|]. cbn [decode_cols]. rewrite <- IH. reflexivity.
+Qed.
+
+Fixpoint present_fields (fs : list Field) (vs : list (bytes * LVal)) {struct vs} : list (option (RVal * RVal)) :=
+  match vs, fs with
+  | (_, v) :: vs', sf :: fs' => option_map (fun r => (RStr (fname' sf), r)) (present sf v) :: present_fields fs' vs'
+  | _, _ => []
+  end.
+
+Lemma present_struct f fs vs : fdt' f = DStruct fs ->
+  present f (LStruct vs) = option_map RMap (all_some (present_fields fs vs)).
+Proof.
+  intros E. destruct f as [nm dt nl]. cbn [fdt'] in E. subst dt. cbn [present fdt'].
+  reflexivity.
+Qed.
+
+Definition pick_row (i : nat) (c : bytes * list LVal) : option (bytes * LVal) :=
+  match nth_error (snd c) i with Some v => Some (fst c, v) | None => None end.
+
+Lemma struct_rows_nth : forall n cols rows i row, struct_rows n cols = Some rows -> nth_error rows i = Some row ->
+  mapM_opt (pick_row i) cols = Some row.
+Proof.
+  induction n as [|n IH]; intros cols rows i row H Hx; cbn [struct_rows] in H.
+  - inversion H; subst. destruct i; discriminate.
+  - match type of H with match ?g with _ => _ end = _ => destruct g as [r0|] eqn:E0; [|discriminate] end.
+    destruct (struct_rows n _) as [rest|] eqn:Er; [|discriminate]. inversion H; subst.
+    destruct i as [|i]; cbn [nth_error] in Hx.
+    + inversion Hx; subst. rewrite <- E0. clear. induction cols as [|[k [|x xs]] r IH]; cbn [mapM_opt pick_row snd fst nth_error]; try reflexivity.
+      rewrite IH. reflexivity.
+    + rewrite <- (IH _ _ _ _ Er Hx). clear - E0. revert r0 E0. induction cols as [|[k l] r IH]; intros r0 E0; [reflexivity|].
+      cbn [mapM_opt map] in *. cbn [snd fst] in *. destruct l as [|x xs]; [discriminate|].
+      destruct (mapM_opt _ r) as [ys|] eqn:Ey; [|discriminate].
+      unfold pick_row at 1 3. cbn [snd fst nth_error tl]. rewrite (IH _ eq_refl). reflexivity.
+Qed.
+
+Lemma struct_go_present idx : forall fs fields cols row,
+  Forall2 (fun sf (mc : Meta * Arr) => fname' sf = m_name (fst mc) /\ reads_ok sf (snd mc)) fs fields ->
+  decode_cols fields = Some cols -> mapM_opt (pick_row idx) cols = Some row ->
+  struct_go (fun c => read c idx) fields = of_option (all_some (present_fields fs row)).
+Proof.
+  intros fs fields cols row HF. revert cols row. induction HF as [|sf [m c] fs' fields' [Hn Hr] HF IH]; intros cols row Hc Hp.
+  - cbn in Hc. inversion Hc; subst. cbn in Hp. inversion Hp; subst. reflexivity.
+  - cbn [decode_cols] in Hc. destruct (decode c) as [vs|] eqn:Ed; [|discriminate].
+    destruct (decode_cols fields') as [rest|] eqn:Er; [|discriminate]. inversion Hc; subst.
+    cbn [mapM_opt] in Hp. unfold pick_row at 1 in Hp. cbn [snd fst] in Hp.
+    destruct (nth_error vs idx) as [x|] eqn:Ex; [|discriminate].
+    destruct (mapM_opt (pick_row idx) rest) as [row'|] eqn:Erow; [|discriminate]. inversion Hp; subst.
+    cbn [struct_go present_fields snd fst] in *. rewrite (Hr vs idx x Ed Ex).
+    destruct (present sf x) as [y|]; cbn [of_option bind option_map all_some]; [|reflexivity].
+    rewrite (IH _ _ eq_refl Erow). rewrite Hn. destruct (all_some _); reflexivity.
+Qed.
+
+Theorem read_decode_struct len v fields fs nm nl :
+  Forall2 (fun sf (mc : Meta * Arr) => fname' sf = m_name (fst mc) /\ reads_ok sf (snd mc)) fs fields ->
+  reads_ok (mkField nm (DStruct fs) nl) (AStruct len v fields).
+Proof.
+  intros HF lvs i lv H Hx. rewrite decode_struct in H.
+  destruct (decode_cols fields) as [cols|] eqn:Ec; [|discriminate]. destruct (struct_rows len cols) as [rows|] eqn:Es; [|discriminate].
+  destruct (lvs_index _ _ _ _ _ _ H Hx) as [row [b0 [Ex [Hb0 ->]]]].
+  assert (Hi : i < len) by (rewrite <- (struct_rows_length _ _ _ Es); apply nth_error_Some; congruence).
+  rewrite read_struct. destruct (Nat.leb_spec len i); [lia|]. rewrite Hb0. cbn [bind].
+  destruct b0; cbn [negb]; [|rewrite present_null; reflexivity].
+  rewrite (struct_go_present i fs fields cols row HF Ec (struct_rows_nth _ _ _ _ _ Es Ex)).
+  rewrite (present_struct _ fs) by reflexivity. destruct (all_some _); reflexivity.
+Qed.
+
+(* ---- maps ---- *)
+Lemma nth_error_combine {A B} : forall (l : list A) (r : list B) j p, nth_error (combine l r) j = Some p ->
+  nth_error l j = Some (fst p) /\ nth_error r j = Some (snd p).
+Proof.
+  induction l as [|x l IH]; intros [|y r] [|j] p H; cbn in H; try discriminate.
+  - inversion H; subst. split; reflexivity.
+  - cbn [nth_error]. apply IH. exact H.
+Qed.
+
+Definition present_kv (kf vf : Field) (kv : LVal * LVal) : option (RVal * RVal) :=
+  match present kf (fst kv), present vf (snd kv) with Some k, Some v => Some (k, v) | _, _ => None end.
+
+Theorem read_decode_map v offs en km vm keys values kf vf nm nl :
+  reads_ok kf keys -> reads_ok vf values ->
+  reads_ok (mkField nm (DMap en kf vf) nl) (AMap v offs en km vm keys values).
+Proof.
+  intros IHk IHv lvs i lv H Hx. cbn [decode] in H.
+  destruct (decode keys) as [ks|] eqn:Ek; [|discriminate]. destruct (decode values) as [vs|] eqn:Ev; [|discriminate].
+  destruct (Nat.eqb_spec (length ks) (length vs)) as [El|]; [|discriminate].
+  destruct (ranges (combine ks vs) offs) as [rs|] eqn:Er; [|discriminate].
+  destruct offs as [|o0 rest]; [rewrite ranges_nil in Er; discriminate|].
+  destruct (lvs_index _ _ _ _ _ _ H Hx) as [x [b0 [Ex [Hb0 ->]]]].
+  rewrite ranges_eq in Er. destruct (ranges_nth _ _ _ _ _ _ Er Ex) as [s [e [Hs [He [H0 [Hse [Hel ->]]]]]]].
+  cbn [read]. assert (S i < length (o0 :: rest)) by (apply nth_error_Some; congruence).
+  destruct (Nat.leb_spec (length (o0 :: rest)) (S i)); [lia|]. rewrite Hb0. cbn [bind].
+  destruct b0; cbn [negb]; [|rewrite present_null; reflexivity].
+  unfold offset_pair. rewrite Hs, He. unfold to_usize.
+  destruct (Z.ltb_spec s 0); [lia|]. destruct (Z.ltb_spec e 0); [lia|]. cbn [bind].
+  rewrite <- (decode_length _ _ Ek), <- (decode_length _ _ Ev).
+  rewrite combine_length in Hel. rewrite range_z_in_bounds by lia.
+  rewrite (mapM_read_present _ (present_kv kf vf) (combine ks vs)).
+  - cbn [present fdt']. unfold present_kv. destruct (all_some _); reflexivity.
+  - rewrite combine_length. lia.
+  - intros j kv Hj. destruct (nth_error_combine _ _ _ _ Hj) as [Hkj Hvj].
+    rewrite (IHk ks j _ Ek Hkj), (IHv vs j _ Ev Hvj). unfold present_kv.
+    destruct (present kf (fst kv)); cbn [of_option bind]; [|reflexivity]. destruct (present vf (snd kv)); reflexivity.
+Qed.
+
+(* ---- dense unions ---- *)
+Fixpoint decode_ucols (fs : list (Z * Meta * Arr)) : option (list (Z * list LVal)) :=
+  match fs with
+  | [] => Some []
+  | (t, _, c) :: r => match decode c, decode_ucols r with Some vs, Some rest => Some ((t, vs) :: rest) | _, _ => None end
+  end.
+
+Definition union_row (cols : list (Z * list LVal)) (p : Z * Z) : option LVal :=
+  let '(t, o) := p in
+  match find (fun c : Z * list LVal => Z.eqb (fst c) t) cols with
+  | Some (_, vs) => if (o <? 0)%Z then None else match nth_error vs (Z.to_nat o) with Some x => Some (LUnion t x) | None => None end
+  | None => None
+  end.
+
+Lemma decode_union types offs fs :
+  decode (AUnion types offs fs) =
+  match decode_ucols fs with
+  | Some cols => if Nat.eqb (length types) (length offs) then mapM_opt (union_row cols) (combine types offs) else None
+  | None => None
+  end.
+Proof.
+  cbn [decode].
+  match goal with |- match ?x with _ => _ end = match ?y with _ => _ end => assert (E : x = y); [|rewrite E; reflexivity] end.
+  induction fs as [|[[t m] c] r IH]; [reflexivity|]. cbn [decode_ucols]. rewrite <- IH. reflexivity.
+Qed.
+
+Lemma mapM_opt_nth {A B} (f : A -> option B) : forall l r i x, mapM_opt f l = Some r -> nth_error r i = Some x ->
+  exists a, nth_error l i = Some a /\ f a = Some x.
+Proof.
+  induction l as [|a l IH]; intros r i x H Hx; cbn [mapM_opt] in H.
+  - inversion H; subst. destruct i; discriminate.
+  - destruct (f a) as [y|] eqn:Ey; [|discriminate]. destruct (mapM_opt f l) as [ys|] eqn:Em; [|discriminate]. inversion H; subst.
+    destruct i as [|i]; cbn [nth_error] in *.
+    + inversion Hx; subst. exists a. auto.
+    + apply (IH ys i x eq_refl Hx).
+Qed.
+
+Definition present_variant (vf : Field) (x : LVal) : option RVal :=
+  match fdt' vf with
+  | DNull => Some (REnum (RStr (fname' vf)) RUnit)
+  | _ => option_map (REnum (RStr (fname' vf))) (present vf x)
+  end.
+
+Definition UR (tf : Z * Field) (tmc : Z * Meta * Arr) : Prop :=
+  fst tf = fst (fst tmc) /\ fname' (snd tf) = m_name (snd (fst tmc)) /\ reads_ok (snd tf) (snd tmc) /\
+  (is_null_arr (snd tmc) = true <-> fdt' (snd tf) = DNull).
+
+Lemma find_ge k : forall fields cols t p, consecutive k fields = true -> decode_ucols fields = Some cols ->
+  find (fun c : Z * list LVal => Z.eqb (fst c) t) cols = Some p -> (k <= t)%Z.
+Proof.
+  intros fields. revert k. induction fields as [|[[t1 m] c] r IH]; intros k cols t p Hc Hd Hf.
+  - cbn in Hd. inversion Hd; subst. discriminate.
+  - cbn [consecutive] in Hc. apply andb_true_iff in Hc as [Ht Hc]. apply Z.eqb_eq in Ht. subst t1.
+    cbn [decode_ucols] in Hd. destruct (decode c); [|discriminate]. destruct (decode_ucols r) as [rest|] eqn:Er; [|discriminate].
+    inversion Hd; subst. cbn [find fst] in Hf. destruct (Z.eqb_spec k t); [lia|].
+    specialize (IH (k + 1)%Z rest t p Hc eq_refl Hf). lia.
+Qed.
+
+Lemma union_pick_find (o : nat) : forall ufs fields, Forall2 UR ufs fields -> forall cols k t t0 vs x,
+  consecutive k fields = true -> decode_ucols fields = Some cols -> (k <= t)%Z ->
+  find (fun c : Z * list LVal => Z.eqb (fst c) t) cols = Some (t0, vs) -> nth_error vs o = Some x ->
+  union_pick (fun c => at_z (read c) (arr_len c) (Z.of_nat o)) fields (Z.to_nat (t - k)) =
+  of_option (match find (fun tf : Z * Field => Z.eqb (fst tf) t) ufs with Some (_, vf) => present_variant vf x | None => None end).
+Proof.
+  intros ufs fields HF. induction HF as [|[tu vf] [[t1 m] c] ufs' fields' [Ht [Hn [Hr Hnull]]] HF IH]; intros cols k t t0 vs x Hc Hd Hk Hf Hx.
+  - cbn in Hd. inversion Hd; subst. discriminate.
+  - cbn [fst snd] in *. subst tu.
+    cbn [consecutive] in Hc. apply andb_true_iff in Hc as [Ht Hc]. apply Z.eqb_eq in Ht. subst t1.
+    cbn [decode_ucols] in Hd. destruct (decode c) as [cvs|] eqn:Ec; [|discriminate]. destruct (decode_ucols fields') as [rest|] eqn:Er; [|discriminate].
+    inversion Hd; subst. cbn [find fst] in *. destruct (Z.eqb_spec k t) as [Heq|Hne].
+    + subst t. injection Hf as E1 E2. subst t0 cvs. replace (Z.to_nat (k - k)) with 0 by lia. cbn [union_pick]. unfold present_variant.
+      destruct (is_null_arr c) eqn:En.
+      * rewrite (proj1 Hnull eq_refl). rewrite Hn. reflexivity.
+      * assert (Hd' : fdt' vf <> DNull) by (intros E; apply Hnull in E; congruence).
+        unfold at_z. destruct (Z.ltb_spec (Z.of_nat o) 0); [lia|].
+        assert (o < length vs) by (apply nth_error_Some; congruence). rewrite <- (decode_length _ _ Ec).
+        destruct (Z.leb_spec (Z.of_nat (length vs)) (Z.of_nat o)); [lia|]. rewrite Nat2Z.id.
+        rewrite (Hr vs o x Ec Hx), Hn. destruct (fdt' vf); try congruence; destruct (present vf x); reflexivity.
+    + replace (Z.to_nat (t - k)) with (S (Z.to_nat (t - (k + 1)))) by lia. cbn [union_pick].
+      apply (IH rest (k + 1)%Z t t0 vs x Hc eq_refl); [lia|exact Hf|exact Hx].
+Qed.
+
+Theorem read_decode_union types offs fields ufs nm nl :
+  Forall2 UR ufs fields -> consecutive 0 fields = true ->
+  reads_ok (mkField nm (DUnion ufs) nl) (AUnion types offs fields).
+Proof.
+  intros HF Hc lvs i lv H Hx. rewrite decode_union in H.
+  destruct (decode_ucols fields) as [cols|] eqn:Ed; [|discriminate].
+  destruct (Nat.eqb_spec (length types) (length offs)) as [El|]; [|discriminate].
+  destruct (mapM_opt_nth _ _ _ _ _ H Hx) as [[t o] [Hto Hrow]].
+  destruct (nth_error_combine _ _ _ _ Hto) as [Ht Ho]. cbn [fst snd] in Ht, Ho.
+  unfold union_row in Hrow. destruct (find _ cols) as [[t0 vs]|] eqn:Ef; [|discriminate].
+  destruct (Z.ltb_spec o 0) as [|Hge]; [discriminate|]. destruct (nth_error vs (Z.to_nat o)) as [x|] eqn:Ex; [|discriminate].
+  inversion Hrow; subst lv. rewrite read_union, Ht, Ho. unfold to_usize. destruct (Z.ltb_spec o 0); [lia|]. cbn [bind].
+  pose proof (find_ge 0 _ _ _ _ Hc Ed Ef) as Htge. destruct (Z.ltb_spec t 0); [lia|].
+  pose proof (union_pick_find (Z.to_nat o) ufs fields HF cols 0%Z t t0 vs x Hc Ed Htge Ef Ex) as E.
+  rewrite Z2Nat.id in E by lia. rewrite Z.sub_0_r in E. rewrite E.
+  cbn [present fdt']. destruct (find _ ufs) as [[tu vf]|]; reflexivity.
+Qed.
+
+(* ---- remaining leaves: views, fixed-size binary, dictionaries ---- *)
+Theorem read_decode_view k v descs bufs nm nl lvs i lv :
+  decode (AView k v descs bufs) = Some lvs -> nth_error lvs i = Some lv ->
+  (k = KUtf8View -> forall x, lv = LBytes x -> utf8_valid x = true) ->
+  read (AView k v descs bufs) i = of_option (present (mkField nm (DView k) nl) lv).
+Proof.
+  intros H Hx Hutf. cbn [decode] in H. destruct (mapM_opt (view_bytes bufs) descs) as [bs|] eqn:Em; [|discriminate].
+  destruct (lvs_index _ _ _ _ _ _ H Hx) as [x [b0 [Ex [Hb0 ->]]]].
+  destruct (mapM_opt_nth _ _ _ _ _ Em Ex) as [d [Hd Hv]].
+  cbn [read]. rewrite Hd, Hb0. cbn [bind]. destruct b0; cbn [negb]; [|rewrite present_null; reflexivity].
+  rewrite Hv. unfold text_or_bytes. cbn [present fdt' is_text_dt].
+  destruct k; [rewrite (Hutf eq_refl _ eq_refl)|]; reflexivity.
+Qed.
+
+Theorem read_decode_fixed_bin n v data nm nl lvs i lv :
+  decode (AFixedBin n v data) = Some lvs -> nth_error lvs i = Some lv ->
+  read (AFixedBin n v data) i = of_option (present (mkField nm (DFixedBin n) nl) lv).
+Proof.
+  intros H Hx. cbn [decode] in H. destruct (n <=? 0)%Z eqn:Hn; [discriminate|].
+  destruct (negb (length data mod Z.to_nat n =? 0)); [discriminate|].
+  destruct (chunks data (Z.to_nat n) (length data / Z.to_nat n)) as [cs|] eqn:Ec; [|discriminate].
+  destruct (lvs_index _ _ _ _ _ _ H Hx) as [x [b0 [Ex [Hb0 ->]]]].
+  destruct (chunks_nth _ _ _ _ _ _ Ec Ex) as [Hl ->].
+  assert (Hi : i < length data / Z.to_nat n).
+  { pose proof (chunks_length _ _ _ _ Ec) as Hcl. assert (i < length cs) by (apply (proj1 (nth_error_Some cs i)); intros E; unfold bytes in *; congruence). lia. }
+  cbn [read arr_len]. rewrite Hn. destruct (Nat.leb_spec (length data / Z.to_nat n) i); [lia|]. rewrite Hb0. cbn [bind].
+  destruct b0; cbn [negb]; [|rewrite present_null; reflexivity]. reflexivity.
+Qed.
+
+Lemma bytes_get_decode v offs data rs i x b0 :
+  ranges data offs = Some rs -> nth_error rs i = Some x -> valid_at v i = Ok b0 ->
+  bytes_get v offs data i = Ok (if b0 then Some x else None).
+Proof.
+  intros Er Ex Hb0. destruct offs as [|o0 rest]; [rewrite ranges_nil in Er; discriminate|].
+  rewrite ranges_eq in Er. destruct (ranges_nth _ _ _ _ _ _ Er Ex) as [s [e [Hs [He [H0 [Hse [Hel ->]]]]]]].
+  unfold bytes_get. assert (S i < length (o0 :: rest)) by (apply nth_error_Some; congruence).
+  destruct (Nat.leb_spec (length (o0 :: rest)) (S i)); [lia|]. rewrite Hb0. cbn [bind].
+  destruct b0; cbn [negb]; [|reflexivity].
+  unfold offset_pair. rewrite Hs, He. unfold to_usize.
+  destruct (Z.ltb_spec s 0); [lia|]. destruct (Z.ltb_spec e 0); [lia|]. cbn [bind].
+  destruct (Z.leb_spec s e); [|lia]. destruct (Z.leb_spec e (Z.of_nat (length data))); [|lia]. reflexivity.
+Qed.
+
+Theorem read_decode_dict ik kv kvals bk offs data key val nm nl lvs i lv :
+  (Z.of_nat (length offs) <= 9223372036854775807)%Z ->
+  decode (ADict (APrim (PInt ik) kv kvals) (ABytes bk None offs data)) = Some lvs -> nth_error lvs i = Some lv ->
+  (forall x, lv = LBytes x -> utf8_valid x = true) ->
+  read (ADict (APrim (PInt ik) kv kvals) (ABytes bk None offs data)) i = of_option (present (mkField nm (DDict key val) nl) lv).
+Proof.
+  intros Hsz H Hx Hutf. cbn [decode] in H.
+  destruct (apply_validity kv (map LInt kvals)) as [ks|] eqn:Ek; [|discriminate].
+  destruct (ranges data offs) as [rs|] eqn:Er; [|discriminate]. cbn [apply_validity] in H.
+  destruct (mapM_opt_nth _ _ _ _ _ H Hx) as [k0 [Hk Hf]].
+  destruct (lvs_index _ _ _ _ _ _ Ek Hk) as [z [b0 [Ez [Hb0 ->]]]].
+  cbn [read]. rewrite Ez, Hb0. cbn [bind]. destruct b0; cbn [negb].
+  - destruct (Z.ltb_spec z 0) as [|Hz]; [discriminate|].
+    destruct (nth_error (map LBytes rs) (Z.to_nat z)) as [y|] eqn:Ey; [|discriminate]. injection Hf as ->.
+    assert (Hlt : Z.to_nat z < length rs) by (rewrite <- (map_length LBytes); apply nth_error_Some; congruence).
+    destruct (nth_error rs (Z.to_nat z)) as [x|] eqn:Ex; [|apply nth_error_None in Ex; lia].
+    rewrite (map_nth_error LBytes _ _ Ex) in Ey. injection Ey as <-.
+    pose proof (ranges_length _ _ _ Er) as Hrl.
+    destruct (Z.ltb_spec 9223372036854775807 z); [lia|]. cbn [orb].
+    unfold at_z. destruct (Z.ltb_spec z 0); [lia|]. destruct (Z.leb_spec (Z.of_nat (length offs - 1)) z); [lia|].
+    rewrite (bytes_get_decode None offs data rs _ x true Er Ex eq_refl). cbn [bind].
+    unfold text_or_bytes. rewrite (Hutf x eq_refl). reflexivity.
+  - injection Hf as <-. rewrite present_null. reflexivity.
+Qed.
+
+(* ---------------- C02 at full strength: every well-formed view of every data type ---------------- *)
+(* the only side condition besides well-formedness: a dictionary's value offsets are addressable
+   (fewer than 2^63 entries - the reader converts keys through i64) *)
+Fixpoint addressable (a : Arr) : bool :=
+  match a with
+  | ADict _ (ABytes _ _ offs _) => (Z.of_nat (length offs) <=? 9223372036854775807)%Z
+  | AList _ _ _ _ e | AFixedList _ _ _ _ e => addressable e
+  | AStruct _ _ fs => forallb (fun mc => addressable (snd mc)) fs
+  | AMap _ _ _ _ _ k x => addressable k && addressable x
+  | AUnion _ _ fs => forallb (fun tmc => addressable (snd tmc)) fs
+  | _ => true
+  end.
+
+Lemma unit_eqb_eq a c : unit_eqb a c = true -> a = c.
+Proof. destruct a, c; cbn; congruence. Qed.
+Lemma intkind_eqb_eq a c : intkind_eqb a c = true -> a = c.
+Proof. destruct a, c; cbn; congruence. Qed.
+Lemma primkind_eqb_eq a c : primkind_eqb a c = true -> a = c.
+Proof.
+  destruct a, c; cbn [primkind_eqb]; intros H; try discriminate; try reflexivity.
+  - f_equal. apply intkind_eqb_eq. exact H.
+  - f_equal. apply unit_eqb_eq. exact H.
+  - f_equal. apply unit_eqb_eq. exact H.
+  - apply andb_true_iff in H as [H1 H2]. apply unit_eqb_eq in H1. subst.
+    destruct tz as [x|], tz0 as [y|]; cbn in H2; try discriminate; [|reflexivity]. apply bytes_eqb_eq in H2. subst. reflexivity.
+  - f_equal. apply unit_eqb_eq. exact H.
+  - apply andb_true_iff in H as [H1 H2]. apply N.eqb_eq in H1. apply Z.eqb_eq in H2. subst. reflexivity.
+Qed.
+Lemma byteskind_eqb_eq a c : byteskind_eqb a c = true -> a = c.
+Proof. destruct a, c; cbn; congruence. Qed.
+Lemma viewkind_eqb_eq a c : viewkind_eqb a c = true -> a = c.
+Proof. destruct a, c; cbn; congruence. Qed.
+
+Lemma visible_in a p lvs i lv : visible_ok a p = true -> decode a = Some lvs -> nth_error lvs i = Some lv -> p lv = true.
+Proof.
+  unfold visible_ok. intros H Hd Hx. rewrite Hd in H. rewrite forallb_forall in H. apply H. eapply nth_error_In. exact Hx.
+Qed.
+
+Lemma wf_null_iff strict f c : wf_arr strict f c = true -> (is_null_arr c = true <-> fdt' f = DNull).
+Proof.
+  destruct f as [nm dt nl]. destruct c; cbn [wf_arr fdt' is_null_arr]; destruct dt; intros H; try discriminate H; split; intros E; try discriminate E; reflexivity.
+Qed.
+
+Definition Full (c : Arr) : Prop :=
+  forall f, wf_arr false f c = true -> construct c = true -> addressable c = true -> reads_ok f c.
+
+Lemma struct_children_full len : forall children fs,
+  Forall (fun mc : Meta * Arr => Full (snd mc)) children ->
+  (fix go (fs : list Field) (cs : list (Meta * Arr)) {struct cs} : bool :=
+     match fs, cs with
+     | [], [] => true
+     | cf :: fs', (m, c) :: cs' => meta_matches m cf && len_ok false (arr_len c) len && wf_arr false cf c && go fs' cs'
+     | _, _ => false
+     end) fs children = true ->
+  forallb (fun mc => construct (snd mc)) children = true ->
+  forallb (fun mc => addressable (snd mc)) children = true ->
+  Forall2 (fun sf (mc : Meta * Arr) => fname' sf = m_name (fst mc) /\ reads_ok sf (snd mc)) fs children.
+Proof.
+  induction children as [|[m c] r IH]; intros fs HF Hgo Hc Ha; destruct fs as [|cf fs']; try discriminate Hgo; [constructor|].
+  apply andb_true_iff in Hgo as [Hgo Hrest]. apply andb_true_iff in Hgo as [Hgo Hwf]. apply andb_true_iff in Hgo as [Hm _].
+  cbn [forallb snd] in Hc, Ha. apply andb_true_iff in Hc as [Hc1 Hc2]. apply andb_true_iff in Ha as [Ha1 Ha2].
+  inversion HF as [|x l HF1 HF2]; subst. constructor.
+  - cbn [fst snd] in *. split; [|apply HF1; assumption].
+    unfold meta_matches in Hm. apply andb_true_iff in Hm as [Hm _]. apply bytes_eqb_eq in Hm. congruence.
+  - apply IH; assumption.
+Qed.
+
+Lemma union_children_full : forall children ufs,
+  Forall (fun tmc : Z * Meta * Arr => Full (snd tmc)) children ->
+  (fix go (fs : list (Z * Field)) (cs : list (Z * Meta * Arr)) {struct cs} : bool :=
+     match fs, cs with
+     | [], [] => true
+     | (t, cf) :: fs', (t', m, c) :: cs' => (t =? t')%Z && meta_matches m cf && wf_arr false cf c && go fs' cs'
+     | _, _ => false
+     end) ufs children = true ->
+  forallb (fun tmc => construct (snd tmc)) children = true ->
+  forallb (fun tmc => addressable (snd tmc)) children = true ->
+  Forall2 UR ufs children.
+Proof.
+  induction children as [|[[t' m] c] r IH]; intros ufs HF Hgo Hc Ha; destruct ufs as [|[t cf] fs']; try discriminate Hgo; [constructor|].
+  apply andb_true_iff in Hgo as [Hgo Hrest]. apply andb_true_iff in Hgo as [Hgo Hwf]. apply andb_true_iff in Hgo as [Ht Hm].
+  cbn [forallb snd] in Hc, Ha. apply andb_true_iff in Hc as [Hc1 Hc2]. apply andb_true_iff in Ha as [Ha1 Ha2].
+  inversion HF as [|x l HF1 HF2]; subst. constructor.
+  - unfold UR. cbn [fst snd] in *. apply Z.eqb_eq in Ht.
+    unfold meta_matches in Hm. apply andb_true_iff in Hm as [Hm _]. apply bytes_eqb_eq in Hm.
+    repeat split; try congruence; try (apply HF1; assumption); apply (wf_null_iff false cf c Hwf).
+  - apply IH; assumption.
+Qed.
+
+Lemma dict_value_in ks vs lvs i x :
+  mapM_opt (fun k => match k with
+                     | LNull => Some LNull
+                     | LInt i => if (i <? 0)%Z then None else nth_error vs (Z.to_nat i)
+                     | _ => None end) ks = Some lvs ->
+  nth_error lvs i = Some (LBytes x) -> In (LBytes x) vs.
+Proof.
+  intros H Hx. destruct (mapM_opt_nth _ _ _ _ _ H Hx) as [k [_ Hf]].
+  destruct k; try discriminate Hf. destruct (z <? 0)%Z; [discriminate|]. eapply nth_error_In. exact Hf.
+Qed.
+
+Theorem read_decode_full : forall a, Full a.
+Proof.
+  intros a. induction a as [n|n v x|k v x|k v offs d|k v d bs|n v d|k v offs m e IHe|len n v m e IHe|len v fs IH
+                            |v offs en km vm ks xs IHk IHx|ks xs IHk IHx|t offs fs IH] using Arr_ind';
+    intros [nm dt nl] Hwf Hc Ha; cbn [wf_arr fdt' fnullable'] in Hwf;
+    destruct dt as [| |pk|bk|vk|fbn|lk cf|fln cf|sfs|en' kf vf|key val|ufs]; try discriminate Hwf.
+  - intros lvs i lv H Hx. eapply read_decode_null; eassumption.
+  - intros lvs i lv H Hx. eapply read_decode_bool; eassumption.
+  - intros lvs i lv H Hx. apply andb_true_iff in Hwf as [Hwf _]. apply andb_true_iff in Hwf as [Hk _]. apply primkind_eqb_eq in Hk. subst pk.
+    eapply read_decode_prim; eassumption.
+  - intros lvs i lv H Hx. apply andb_true_iff in Hwf as [Hwf Hu]. apply andb_true_iff in Hwf as [Hwf _]. apply andb_true_iff in Hwf as [Hk _].
+    apply byteskind_eqb_eq in Hk. subst bk. eapply read_decode_bytes; try eassumption.
+    intros Hutf y ->. rewrite Hutf in Hu. cbn [negb orb] in Hu. exact (visible_in _ _ _ _ _ Hu H Hx).
+  - intros lvs i lv H Hx. apply andb_true_iff in Hwf as [Hwf Hu]. apply andb_true_iff in Hwf as [Hk _].
+    apply viewkind_eqb_eq in Hk. subst vk. eapply read_decode_view; try eassumption.
+    intros -> y ->. exact (visible_in _ _ _ _ _ Hu H Hx).
+  - intros lvs i lv H Hx. apply andb_true_iff in Hwf as [Hwf _]. apply andb_true_iff in Hwf as [Hwf _]. apply andb_true_iff in Hwf as [Hn _].
+    apply Z.eqb_eq in Hn. subst fbn. eapply read_decode_fixed_bin; eassumption.
+  - apply andb_true_iff in Hwf as [_ Hwf]. cbn [construct addressable] in Hc, Ha.
+    apply read_decode_list. apply IHe; assumption.
+  - apply andb_true_iff in Hwf as [Hwf Hwe]. do 4 apply andb_true_iff in Hwf as [Hwf _]. apply Z.eqb_eq in Hwf. subst fln.
+    cbn [construct addressable] in Hc, Ha. apply andb_true_iff in Hc as [_ Hc].
+    apply read_decode_fixed_list. apply IHe; assumption.
+  - apply andb_true_iff in Hwf as [_ Hgo]. cbn [construct addressable] in Hc, Ha.
+    apply read_decode_struct. exact (struct_children_full len fs sfs IH Hgo Hc Ha).
+  - apply andb_true_iff in Hwf as [Hwf Hwv]. apply andb_true_iff in Hwf as [Hwf Hwk]. do 5 apply andb_true_iff in Hwf as [Hwf _].
+    apply bytes_eqb_eq in Hwf. subst en'.
+    cbn [construct addressable] in Hc, Ha. apply andb_true_iff in Hc as [Hc1 Hc2]. apply andb_true_iff in Ha as [Ha1 Ha2].
+    apply read_decode_map; [apply IHk|apply IHx]; assumption.
+  - intros lvs i lv H Hx. apply andb_true_iff in Hwf as [Hwf _]. apply andb_true_iff in Hwf as [Hwk Hwv].
+    cbn [construct] in Hc. destruct ks as [| |pk kv kvals| | | | | | | | |]; try discriminate Hc. destruct pk as [ik| | | | | | | | | |]; try discriminate Hc.
+    destruct xs as [| | |bk bv boffs bdata| | | | | | | |]; try discriminate Hc. destruct bv as [bm|]; [destruct bk; discriminate Hc|].
+    cbn [addressable] in Ha. apply Z.leb_le in Ha.
+    eapply read_decode_dict; try eassumption.
+    intros y ->. cbn [wf_arr fdt'] in Hwv.
+    assert (Hutf : is_utf8_kind val = true) by (destruct bk; try discriminate Hc; destruct val; try reflexivity; cbn in Hwv; discriminate Hwv).
+    apply andb_true_iff in Hwv as [_ Hu]. rewrite Hutf in Hu. cbn [negb orb] in Hu. unfold visible_ok in Hu.
+    change (decode (ADict (APrim (PInt ik) kv kvals) (ABytes bk None boffs bdata))) with
+      (match decode (APrim (PInt ik) kv kvals), decode (ABytes bk None boffs bdata) with
+       | Some ks, Some vs => mapM_opt (fun k => match k with
+                         | LNull => Some LNull
+                         | LInt i => if (i <? 0)%Z then None else nth_error vs (Z.to_nat i)
+                         | _ => None end) ks
+       | _, _ => None end) in H.
+    destruct (decode (APrim (PInt ik) kv kvals)) as [ks|]; [|discriminate]. destruct (decode (ABytes bk None boffs bdata)) as [vs|]; [|discriminate].
+    rewrite forallb_forall in Hu. exact (Hu _ (dict_value_in _ _ _ _ _ H Hx)).
+  - apply andb_true_iff in Hwf as [Hwf _]. apply andb_true_iff in Hwf as [_ Hgo].
+    cbn [construct addressable] in Hc, Ha. apply andb_true_iff in Hc as [Hc Hcc]. apply andb_true_iff in Hc as [_ Hcons].
+    apply read_decode_union; [exact (union_children_full fs ufs IH Hgo Hcc Ha)|exact Hcons].
 Qed.
